@@ -34,6 +34,7 @@ type seqPlan struct {
 	nTree   int
 	nFuzz   int
 	nFrag   int
+	nHost   int
 	space   *qt.Space
 }
 
@@ -48,6 +49,7 @@ func newSeqPlan(tier string, fuzzQuick, fuzzThorough int) *seqPlan {
 	p.space = qt.NewSpace(qt.QuickLeaves())
 	p.nTree = nBatches(p.space.Size())
 	p.nFuzz = fuzzQuick
+	p.nHost = 2
 	p.nFrag = 6
 	if tier == "thorough" {
 		p.nFuzz = fuzzThorough
@@ -56,7 +58,20 @@ func newSeqPlan(tier string, fuzzQuick, fuzzThorough int) *seqPlan {
 	return p
 }
 
-func (p *seqPlan) total() int { return p.nSeq + p.nTree + p.nFuzz + p.nFrag }
+func (p *seqPlan) total() int { return p.nSeq + p.nTree + p.nFuzz + p.nFrag + p.nHost }
+
+// hostileInputs places a hostile string in every leaf position, raw, quoted and escaped.
+func hostileInputs(h string) []string {
+	ins := []string{h, "a:" + h, h + ":b", "a:[" + h + " TO " + h + "]", "a:(" + h + " OR " + h + ")", "a:>" + h, h + "~", h + "^2", "+" + h, "-" + h, "NOT " + h, "x " + h}
+	if !strings.Contains(h, `"`) {
+		q := qt.Phrase(h).Text
+		ins = append(ins, q, "a:"+q, q+":b", "a:["+q+" TO *]", "a:{* TO "+q+"}", "a:("+q+" OR b)", "a:<="+q, q+"~3", "x "+q+" y", "a:("+q+" OR "+q+")")
+	}
+	if e := qt.Escaped(h).Text; e != "" {
+		ins = append(ins, e, "a:"+e, e+":b", "a:["+e+" TO b]", "a:"+e+"*")
+	}
+	return ins
+}
 
 // each calls fn for every input of the batch. kind names the generator.
 func (p *seqPlan) each(ctx *core.Ctx, batch int, fn func(kind, in string)) {
@@ -75,6 +90,16 @@ func (p *seqPlan) each(ctx *core.Ctx, batch int, fn func(kind, in string)) {
 		lo, hi := batchRange(p.space.Size(), batch-p.nSeq)
 		for i := lo; i < hi; i++ {
 			fn("tree", qt.Print(p.space.At(i), qt.Style{}))
+		}
+	case batch >= p.nSeq+p.nTree+p.nFuzz+p.nFrag:
+		which := batch - (p.nSeq + p.nTree + p.nFuzz + p.nFrag)
+		for i, h := range gen.HostileStrings {
+			if i%p.nHost != which {
+				continue
+			}
+			for _, in := range hostileInputs(h) {
+				fn("hostile", in)
+			}
 		}
 	case batch >= p.nSeq+p.nTree+p.nFuzz:
 		// random sequences of well-formed fragments (longer than the exhaustive bound)
